@@ -83,7 +83,7 @@ CHECKS["C18"] = dict(
 )
 CHECKS["C09"] = dict(
     category="proof",
-    text="Coq model of the pending side of the store (unmined transactions, unmined inputs with per-spender lists, unmined credits, pending game rows, the handler's volatile mempool set) wrapped around the C01 ledger, with 33 theorems: an accepted unconfirmed transaction is readable and flags every wallet coin it spends, flagged coins are never eligible, receiving changes nothing mined, settling equals mining unseen and removes the pending record, a confirmed conflict purges the conflicted transaction with all registered descendants (fuel bound proved), rolled-back transactions return readable with all inputs registered, and refutation witnesses for three repaired defects; plus the whole-history index invariant (in every state any history reaches, a readable pending transaction is registered under every wallet coin it spends, that coin is flagged and not eligible — the only exception being the non-wallet inputs of the recorded finding; every registration belongs to a pending spender; Rollback of any depth and every connect keep both), from which: whenever a relevant transaction confirms, every pending transaction sharing a wallet coin with it vanishes with its registered descendants and its coins are free again, in every reachable state; closed counterexample for a Rollback that overwrites the spender list. Tied to the code by replaying generated histories (chains of pending transactions, duplicates, conflicts incl. one delivered while its rival is still confirmed for the wallet because the node has switched forks, confirms, reorgs, restarts) on the real WalletManager and the extracted model with all pending-side buckets compared key by key.",
+    text="Coq model of the pending side of the store (unmined transactions, unmined inputs with per-spender lists, unmined credits, pending game rows, the handler's volatile mempool set) wrapped around the C01 ledger, with 46 theorems: an accepted unconfirmed transaction is readable and flags every wallet coin it spends, flagged coins are never eligible, receiving changes nothing mined, settling equals mining unseen and removes the pending record, a confirmed conflict purges the conflicted transaction with all registered descendants (fuel bound proved), rolled-back transactions return readable with all inputs registered, and refutation witnesses for three repaired defects; plus the whole-history index invariant (in every state any history reaches, a readable pending transaction is registered under every wallet coin it spends, that coin is flagged and not eligible — the only exception being the non-wallet inputs of the recorded finding; every registration belongs to a pending spender; Rollback of any depth and every connect keep both), from which: whenever a relevant transaction confirms, every pending transaction sharing a wallet coin with it vanishes with its registered descendants and its coins are free again, in every reachable state; closed counterexample for a Rollback that overwrites the spender list. Tied to the code by replaying generated histories (chains of pending transactions, duplicates, conflicts incl. one delivered while its rival is still confirmed for the wallet because the node has switched forks, confirms, reorgs, restarts) on the real WalletManager and the extracted model with all pending-side buckets compared key by key.",
     design_ref="DESIGN.md section 5, C09",
     note="Trusted: Coq kernel (no axioms), ExtrOcamlBasic + driver, harness (sim/hist/pending.go), hooks VerifReceiveTx and the read-only bucket dumps; node mempool empty; the two p2p look-ups of proccessReceivedTx and the 1024-block expiry are not covered. Known findings stale-pending:foreign-input, stale-pending:unseen-parent; three defects repaired (626fe73, 0bc4560, and the Rollback record).",
     technique="Coq proof (per-operation invariants of the pending set, fuel bound for conflict removal) + extracted-model differential correspondence with bucket-level dumps",
@@ -118,7 +118,7 @@ CHECKS["C05"] = dict(
 )
 CHECKS["C07"] = dict(
     category="proof",
-    text="Coq model of the restore: discovery, batched rescan (any batch size, any number of batches) with the follower suspended, the tip check of a batch (refused and retried unless the node's block at its upper height is the block the follower is synced to), cursor pull-back on disconnect, hand-over at the tip; theorems: while the node connects, disconnects and RE-connects blocks and the follower processes or lags between batches, a wallet that becomes ready holds exactly the ledger of a wallet that watched the chain live and reports the chain specification; it cannot be selected before; a batch never abandons the task; the same for a store that already holds any number of READY wallets with their history and transactions shared with the restored one (the whole database ends as the live run of all wallets; the other wallets' credits, spent marks and reports are at every moment what they are without the import; closed counterexample for a rescan that skips transactions already recorded for another wallet); refutation witnesses for the three repaired defects (dropped task, refused reorganisation after a rescan, the bounce before the tip check). Tied to the code by an original wallet and its twin restored from mnemonic / keystore in a second real instance while blocks and reorganisations arrive between and inside batches (DB gate parks worker or handler at chosen points), the bounce family (node leaves the follower's chain while a batch is parked and returns), 1010-1160 block chains, multi-wallet instances; model = implementation on every step, implementation = chain specification and = the original wallet at the end.",
+    text="Coq model of the restore: discovery, batched rescan (any batch size, any number of batches) with the follower suspended, the tip check of a batch (refused and retried unless the node's block at its upper height is the block the follower is synced to), cursor pull-back on disconnect, hand-over at the tip; theorems: while the node connects, disconnects and RE-connects blocks and the follower processes or lags between batches, a wallet that becomes ready holds exactly the ledger of a wallet that watched the chain live and reports the chain specification; it cannot be selected before; a batch never abandons the task; the same for a store that already holds any number of READY wallets with their history and transactions shared with the restored one (the whole database ends as the live run of all wallets; the other wallets' credits, spent marks and reports are at every moment what they are without the import; closed counterexample for a rescan that skips transactions already recorded for another wallet; that start state is reached by any history of wallet creations, address issuing and chain events; every relevant transaction is recorded exactly once; two restores running concurrently with arbitrarily interleaved batches end with the live run of all wallets); refutation witnesses for the three repaired defects (dropped task, refused reorganisation after a rescan, the bounce before the tip check). Tied to the code by an original wallet and its twin restored from mnemonic / keystore in a second real instance while blocks and reorganisations arrive between and inside batches (DB gate parks worker or handler at chosen points), the bounce family (node leaves the follower's chain while a batch is parked and returns), 1010-1160 block chains, multi-wallet instances; model = implementation on every step, implementation = chain specification and = the original wallet at the end.",
     design_ref="DESIGN.md section 5, C07",
     note="Trusted: Coq kernel (no axioms), ExtrOcamlBasic + driver, harness (sim/hist/gate), mass-core's script-hash index (environment, written by the sim). Pending set, key derivation and gap discovery are inputs to this model (C09, C04, C12). Two defects repaired (7082cdf, 4701beb).",
     technique="Coq proof (batched rescan = live ledger for every batch size, by induction on batches using the C01 theorems) + twin correspondence on real WalletManager instances with controlled interleavings",
